@@ -13,11 +13,10 @@ use serde_json::json;
 pub struct C02;
 
 /// nodes, hyperedges and interfaces equal field for field; pending unification pairs equal as a
-/// multiset of (offset) ordered pairs -- the list order of pending pairs carries no meaning
+/// multiset of (offset) unordered pairs -- neither the list order nor the orientation of a pair carries meaning
 fn same_lax_up_to_pair_order(a: &PL, b: &PL) -> bool {
-    let (mut qa, mut qb) = (a.q.clone(), b.q.clone());
-    qa.sort();
-    qb.sort();
+    let norm = |q: &Vec<(usize, usize)>| { let mut v: Vec<(usize, usize)> = q.iter().map(|&(x, y)| (x.min(y), x.max(y))).collect(); v.sort(); v };
+    let (qa, qb) = (norm(&a.q), norm(&b.q));
     a.w == b.w && a.e == b.e && a.s == b.s && a.t == b.t && qa == qb
 }
 
